@@ -102,6 +102,13 @@ CLAIMS["C19"] = {
     "technique": "static analysis: writer/reader vocabulary set comparison, constant folding of safety tables, guard dominance over returns, caller discipline (who-must-update) check",
 }
 
+CLAIMS["C10"] = {
+    "decides": "narrow wiring/registry clauses only: MVAR value tags map to the fields the OpenType registry assigns and those fields exist; every _add_*/_merge_* table builder is reached from build() under the exclude entry of the table it writes and receives the model together with the master list; the model is built from ds.normalized_master_locs in source order; design-location defaults pass through the axis map; store-optimisation index maps are applied with GDEF/GPOS paired; no set order reaches numbering in varLib.",
+    "design_ref": "DESIGN.md §4 C10",
+    "note": "Decides registry and wiring clauses, not delta values, rounding budgets, GPOS value merging or CFF2 blend merging. Trusted: frozen 28-row MVAR registry (OpenType spec).",
+    "technique": "static analysis: registry vs. frozen specification table and struct formats, call-graph reachability with guard agreement, slice provenance of the model's master order",
+}
+
 _PENDING = "check not built yet in this round (planned structural clauses in DESIGN.md §4); not claimed until its check exists"
 NOT_APPLICABLE = {
     "C05": "numeric equality of outlines/advances with independent rasterisers at every location: runtime values only; no structural clause that is a necessary condition and survives refactoring (DESIGN §4 C05)",
@@ -109,5 +116,5 @@ NOT_APPLICABLE = {
     "C14": "geometric equality through pen adapters over all call sequences: adapters may legally buffer/merge/re-emit calls, so no forwarding-shape rule is both necessary and refactoring-stable (DESIGN §4 C14)",
     "C18": "rendering equivalence of merged fonts: only weak structural facts (first-writer-wins cmap guard) exist, not enough for a necessary-condition clause (DESIGN §4 C18)",
 }
-for _p in ("C10",):
+for _p in ():
     NOT_APPLICABLE[_p] = _PENDING
